@@ -50,6 +50,10 @@ pub fn noop_ids() -> Vec<Pubkey> {
     vec![
         solana_program::pubkey!("ComputeBudget111111111111111111111111111111"),
         Pubkey::new_from_array([9u8; 32]),
+        // venue / swap programs named by the receivership allow-list (accept anything, do nothing)
+        solana_program::pubkey!("T1TANpTeScyeqVzzgNViGDNrkQ6qHz9KrSBS4aNXvGT"),
+        solana_program::pubkey!("dRiftyHA39MWEi3m9aunc5MzRF1JYuBsbn6VPcn33UH"),
+        kamino_mocks::kamino_lending::ID,
     ]
 }
 
